@@ -861,3 +861,300 @@ Theorem C05_alloc_ho_drift_refuted :
           ([5%N; 3%N; 2%N], [], [], [6%N; 7%N]), true).
 Proof. exact AllocExamples.ho_drift_refuted. Qed.
 Print Assumptions C05_alloc_ho_drift_refuted.
+
+(* ---------------------------------------------------------------------------------------------
+   Package ARCSLAB: the node store of the pointer-based manager (crate arcslab: pages of slots,
+   ONE free list through the slots, reference-counted items, IntHandle / ExtHandle, the slab's own
+   count), model coq/Tbl/ArcSlab.v.  spp = slots per page (>= 1).  "reachable" = the state after
+   ANY script of client operations on a new slab.  (Qualified names: nothing is imported.) *)
+From Coq Require Import List NArith Bool Arith.
+From OxiVerif Require Tbl.ArcSlab Tbl.ArcSlabProofsBase Tbl.ArcSlabProofs Tbl.ArcSlabProofsStep Tbl.ArcSlabThms
+  Tbl.ArcSlabReach Tbl.ArcSlabExamples.
+Import ListNotations.
+
+Theorem C05_arcslab_reachable_def : forall spp y,
+  ArcSlabThms.reachable spp y <-> exists ops outs, ArcSlab.run spp (ArcSlab.init spp) ops = Some (y, outs).
+Proof. intros. reflexivity. Qed.
+Print Assumptions C05_arcslab_reachable_def.
+
+Theorem C05_arcslab_reachable_closed : forall spp y o y' out,
+  ArcSlabThms.reachable spp y -> ArcSlab.step spp y o = ArcSlab.Done y' out -> ArcSlabThms.reachable spp y'.
+Proof. exact ArcSlabThms.reachable_step. Qed.
+Print Assumptions C05_arcslab_reachable_closed.
+
+(* no reachable state makes an operation meet an inconsistent structure (free-list head that is
+   not a free slot, a handle whose slot holds no item): every script runs to its end *)
+Theorem C05_arcslab_never_broken : forall spp, (1 <= spp)%nat -> forall y o,
+  ArcSlabThms.reachable spp y -> ArcSlab.step spp y o <> ArcSlab.Broken.
+Proof. exact ArcSlabThms.reachable_never_broken. Qed.
+Print Assumptions C05_arcslab_never_broken.
+
+Theorem C05_arcslab_run_total : forall spp, (1 <= spp)%nat -> forall ops,
+  exists yf outs, ArcSlab.run spp (ArcSlab.init spp) ops = Some (yf, outs) /\ ArcSlabProofs.YInv spp yf.
+Proof. exact ArcSlabProofsStep.run_init_inv. Qed.
+Print Assumptions C05_arcslab_run_total.
+
+(* (a) the slots of the allocated pages are partitioned into items, recycled free slots ([stack],
+   most recently freed first) and never-used free slots (a suffix of the newest page); the free
+   list is exactly stack ++ never-used, duplicate-free, its head is `free_slot`; num_items counts
+   the items *)
+Theorem C05_arcslab_partition : forall spp, (1 <= spp)%nat -> forall y sl,
+  ArcSlabThms.reachable spp y -> ArcSlab.y_slab y = ArcSlab.Alive sl ->
+  exists stack k,
+    let pgs := ArcSlab.pl_pages (ArcSlab.sl_pl sl) in
+    let never := ArcSlabProofsBase.fresh spp (length pgs) k in
+    (k <= spp)%nat /\ pgs <> [] /\
+    NoDup (stack ++ never) /\
+    hd_error (stack ++ never) = Some (ArcSlab.pl_free (ArcSlab.sl_pl sl)) /\
+    ArcSlabProofsBase.linked pgs (stack ++ never) /\
+    (forall a, ArcSlabProofsBase.valid spp pgs a ->
+       ((exists p rc, ArcSlab.get_at pgs a = Some (ArcSlab.Item p rc)) /\ ~ In a stack /\ ~ In a never) \/
+       ((exists nx, ArcSlab.get_at pgs a = Some (ArcSlab.Free nx)) /\ In a stack /\ ~ In a never) \/
+       ((exists nx, ArcSlab.get_at pgs a = Some (ArcSlab.Free nx)) /\ ~ In a stack /\ In a never)) /\
+    (forall a, In a (stack ++ never) -> ArcSlabProofsBase.valid spp pgs a) /\
+    ArcSlab.sl_items sl = N.of_nat (ArcSlabProofsBase.cnt pgs).
+Proof. exact ArcSlabReach.r_partition. Qed.
+Print Assumptions C05_arcslab_partition.
+
+(* no slot is handed out while its item is alive: the slot add_item returns is the head of the free
+   list, a free slot without item and without handle; only that slot changes *)
+Theorem C05_arcslab_add_fresh : forall spp, (1 <= spp)%nat -> forall y sl h p y' out,
+  ArcSlabThms.reachable spp y -> ArcSlab.y_slab y = ArcSlab.Alive sl ->
+  ArcSlab.step spp y (ArcSlab.OAdd h p) = ArcSlab.Done y' out ->
+  exists a sl',
+    out = ArcSlab.mkOut (ArcSlab.RAddr a) [] /\
+    y' = ArcSlab.mkSys (ArcSlab.Alive sl') ((h, ArcSlab.mkH a ArcSlab.KInt) :: ArcSlab.y_hs y) (ArcSlab.y_refs y) (ArcSlab.y_tok y) /\
+    a = ArcSlab.pl_free (ArcSlab.sl_pl sl) /\
+    (exists nx, ArcSlab.get_at (ArcSlab.pl_pages (ArcSlab.sl_pl sl)) a = Some (ArcSlab.Free nx)) /\
+    ArcSlab.slot_read sl a = None /\ ArcSlabProofs.hcount a (ArcSlab.y_hs y) = 0%nat /\
+    (forall b, ArcSlab.slot_read sl' b = if ArcSlab.addr_eqb a b then Some (p, 1%N) else ArcSlab.slot_read sl b) /\
+    ArcSlab.sl_items sl' = (ArcSlab.sl_items sl + 1)%N.
+Proof. exact ArcSlabReach.r_add_fresh. Qed.
+Print Assumptions C05_arcslab_add_fresh.
+
+(* (b) the count stored in an item = the number of handle variables that refer to it, never 0; a slot
+   without item has no handle; every handle variable refers to a live item (no use after free) *)
+Theorem C05_arcslab_rc_exact : forall spp, (1 <= spp)%nat -> forall y sl a p rc,
+  ArcSlabThms.reachable spp y -> ArcSlab.y_slab y = ArcSlab.Alive sl -> ArcSlab.slot_read sl a = Some (p, rc) ->
+  rc = N.of_nat (ArcSlabProofs.hcount a (ArcSlab.y_hs y)) /\ (1 <= rc)%N.
+Proof. exact ArcSlabReach.r_rc_exact. Qed.
+Print Assumptions C05_arcslab_rc_exact.
+
+Theorem C05_arcslab_free_slot_no_handle : forall spp, (1 <= spp)%nat -> forall y sl a,
+  ArcSlabThms.reachable spp y -> ArcSlab.y_slab y = ArcSlab.Alive sl -> ArcSlab.slot_read sl a = None ->
+  ArcSlabProofs.hcount a (ArcSlab.y_hs y) = 0%nat.
+Proof. exact ArcSlabReach.r_free_slot_no_handle. Qed.
+Print Assumptions C05_arcslab_free_slot_no_handle.
+
+Theorem C05_arcslab_no_dangling : forall spp, (1 <= spp)%nat -> forall y sl h hd,
+  ArcSlabThms.reachable spp y -> ArcSlab.y_slab y = ArcSlab.Alive sl -> ArcSlab.hfind h (ArcSlab.y_hs y) = Some hd ->
+  exists p rc, ArcSlab.slot_read sl (ArcSlab.h_addr hd) = Some (p, rc) /\ (1 <= rc)%N.
+Proof. exact ArcSlabReach.r_no_dangling. Qed.
+Print Assumptions C05_arcslab_no_dangling.
+
+(* the end of a handle (drop / drop_with / into_inner, IntHandle or ExtHandle): the item leaves its slot
+   (Drop logged / closure called, then Drop / Some returned) exactly when the handle is the LAST one that
+   refers to it, else only the count goes down; the slot then is the head of the free list; an ExtHandle
+   gives up its slab reference AFTER the item, and the slab is destroyed (D logged last) exactly when
+   that was the only reference (ArcSlabRefs + raw references + ExtHandles = 1) *)
+Theorem C05_arcslab_end_spec : forall spp, (1 <= spp)%nat -> forall y sl o h hd,
+  ArcSlabThms.reachable spp y -> ArcSlab.y_slab y = ArcSlab.Alive sl -> ArcSlabProofsStep.is_end o h ->
+  ArcSlab.hfind h (ArcSlab.y_hs y) = Some hd ->
+  exists p rc y' out,
+    ArcSlab.slot_read sl (ArcSlab.h_addr hd) = Some (p, rc) /\
+    rc = N.of_nat (ArcSlabProofs.hcount (ArcSlab.h_addr hd) (ArcSlab.y_hs y)) /\
+    ArcSlab.step spp y o = ArcSlab.Done y' out /\
+    ArcSlab.y_hs y' = ArcSlab.hremove h (ArcSlab.y_hs y) /\ ArcSlab.y_refs y' = ArcSlab.y_refs y /\
+    ArcSlab.y_tok y' = ArcSlab.y_tok y /\
+    let last := (ArcSlabProofs.hcount (ArcSlab.h_addr hd) (ArcSlab.y_hs y) =? 1)%nat in
+    let d := if last then Some p else None in
+    let dies := ArcSlab.is_ext (ArcSlab.h_kind hd) && (ArcSlabProofsStep.slab_count y =? 1)%N in
+    ArcSlab.o_res out = ArcSlabProofsStep.end_res o d /\
+    ArcSlab.o_log out = ArcSlabProofsStep.end_log o d ++ (if dies then [ArcSlab.EvData] else []) /\
+    ArcSlabProofsStep.live y' = (if last then ArcSlabProofsStep.live y - 1 else ArcSlabProofsStep.live y)%N /\
+    (last = true -> (1 <= ArcSlabProofsStep.live y)%N) /\
+    if dies then ArcSlab.y_slab y' = ArcSlab.Destroyed (ArcSlabProofsStep.live y')
+    else exists sl', ArcSlab.y_slab y' = ArcSlab.Alive sl' /\
+           length (ArcSlab.pl_pages (ArcSlab.sl_pl sl')) = length (ArcSlab.pl_pages (ArcSlab.sl_pl sl)) /\
+           (forall b, ArcSlab.slot_read sl' b =
+                      if ArcSlab.addr_eqb (ArcSlab.h_addr hd) b then (if last then None else Some (p, (rc - 1)%N))
+                      else ArcSlab.slot_read sl b) /\
+           (last = true -> ArcSlab.pl_free (ArcSlab.sl_pl sl') = ArcSlab.h_addr hd).
+Proof. exact ArcSlabReach.r_end_spec. Qed.
+Print Assumptions C05_arcslab_end_spec.
+
+(* the outputs named above, spelled out *)
+Theorem C05_arcslab_end_outputs : forall h p,
+  ArcSlabProofsStep.end_res (ArcSlab.OIntoInner h) (Some p) = ArcSlab.RSome p /\
+  ArcSlabProofsStep.end_res (ArcSlab.OIntoInner h) None = ArcSlab.RNone /\
+  ArcSlabProofsStep.end_log (ArcSlab.ODrop h) (Some p) = [ArcSlab.EvDrop p] /\
+  ArcSlabProofsStep.end_log (ArcSlab.ODropWith h) (Some p) = [ArcSlab.EvFn p; ArcSlab.EvDrop p] /\
+  ArcSlabProofsStep.end_log (ArcSlab.OIntoInner h) (Some p) = [] /\
+  ArcSlabProofsStep.end_log (ArcSlab.ODrop h) None = [] /\ ArcSlabProofsStep.end_log (ArcSlab.ODropWith h) None = [] /\
+  (forall o, ArcSlabProofsStep.is_end o h <-> o = ArcSlab.ODrop h \/ o = ArcSlab.ODropWith h \/ o = ArcSlab.OIntoInner h).
+Proof. intros. repeat split; auto. Qed.
+Print Assumptions C05_arcslab_end_outputs.
+
+(* force_into_inner of the last IntHandle: the item, the slot freed; clone: the item's count (and for an
+   ExtHandle the slab's count) + 1 *)
+Theorem C05_arcslab_force_spec : forall spp, (1 <= spp)%nat -> forall y sl h a,
+  ArcSlabThms.reachable spp y -> ArcSlab.y_slab y = ArcSlab.Alive sl ->
+  ArcSlab.hfind h (ArcSlab.y_hs y) = Some (ArcSlab.mkH a ArcSlab.KInt) -> ArcSlabProofs.hcount a (ArcSlab.y_hs y) = 1%nat ->
+  exists p sl',
+    ArcSlab.slot_read sl a = Some (p, 1%N) /\
+    ArcSlab.step spp y (ArcSlab.OForce h) =
+      ArcSlab.Done (ArcSlab.mkSys (ArcSlab.Alive sl') (ArcSlab.hremove h (ArcSlab.y_hs y)) (ArcSlab.y_refs y) (ArcSlab.y_tok y))
+                   (ArcSlab.mkOut (ArcSlab.RSome p) []) /\
+    (forall b, ArcSlab.slot_read sl' b = if ArcSlab.addr_eqb a b then None else ArcSlab.slot_read sl b) /\
+    ArcSlab.sl_items sl' = (ArcSlab.sl_items sl - 1)%N /\ (1 <= ArcSlab.sl_items sl)%N /\
+    ArcSlab.pl_free (ArcSlab.sl_pl sl') = a /\
+    length (ArcSlab.pl_pages (ArcSlab.sl_pl sl')) = length (ArcSlab.pl_pages (ArcSlab.sl_pl sl)).
+Proof. exact ArcSlabReach.r_force_spec. Qed.
+Print Assumptions C05_arcslab_force_spec.
+
+Theorem C05_arcslab_clone_spec : forall spp, (1 <= spp)%nat -> forall y sl h h2 hd,
+  ArcSlabThms.reachable spp y -> ArcSlab.y_slab y = ArcSlab.Alive sl ->
+  ArcSlab.hfind h (ArcSlab.y_hs y) = Some hd -> ArcSlab.hfind h2 (ArcSlab.y_hs y) = None ->
+  exists p rc sl',
+    ArcSlab.slot_read sl (ArcSlab.h_addr hd) = Some (p, rc) /\
+    ArcSlab.step spp y (ArcSlab.OClone h h2) =
+      ArcSlab.Done (ArcSlab.mkSys (ArcSlab.Alive sl') ((h2, hd) :: ArcSlab.y_hs y) (ArcSlab.y_refs y) (ArcSlab.y_tok y))
+                   (ArcSlab.mkOut (ArcSlab.RNum (rc + 1)%N) []) /\
+    (forall b, ArcSlab.slot_read sl' b = if ArcSlab.addr_eqb (ArcSlab.h_addr hd) b then Some (p, (rc + 1)%N) else ArcSlab.slot_read sl b) /\
+    ArcSlab.sl_items sl' = ArcSlab.sl_items sl /\
+    length (ArcSlab.pl_pages (ArcSlab.sl_pl sl')) = length (ArcSlab.pl_pages (ArcSlab.sl_pl sl)) /\
+    ArcSlab.sl_rc sl' = (ArcSlab.sl_rc sl + N.of_nat (ArcSlabProofsBase.b2n (ArcSlab.is_ext (ArcSlab.h_kind hd))))%N.
+Proof. exact ArcSlabReach.r_clone_spec. Qed.
+Print Assumptions C05_arcslab_clone_spec.
+
+(* every operation: (items in slots afterwards) + (items dropped or returned) = (items in slots before)
+   + (items added); D is logged exactly by the operation that destroys the slab, which happens only
+   when the slab's count was 1 *)
+Theorem C05_arcslab_step_conservation : forall spp, (1 <= spp)%nat -> forall y o y' out,
+  ArcSlabThms.reachable spp y -> ArcSlab.step spp y o = ArcSlab.Done y' out ->
+  (ArcSlabProofsStep.live y' + ArcSlabThms.gone out = ArcSlabProofsStep.live y + ArcSlabThms.added out)%N /\
+  (In ArcSlab.EvData (ArcSlab.o_log out) <-> ArcSlab.obs_alive y' = false) /\
+  (ArcSlab.obs_alive y' = false -> ArcSlabProofsStep.slab_count y = 1%N).
+Proof. exact ArcSlabReach.r_step_delta. Qed.
+Print Assumptions C05_arcslab_step_conservation.
+
+(* whole scripts from a new slab: every item that was ever added has been dropped / returned exactly
+   once or is still in its slot (after the destruction: was, = leaked); with no handle variable left
+   nothing is in a slot and nothing was leaked *)
+Theorem C05_arcslab_conservation : forall spp, (1 <= spp)%nat -> forall ops,
+  exists yf outs, ArcSlab.run spp (ArcSlab.init spp) ops = Some (yf, outs) /\ ArcSlabProofs.YInv spp yf /\
+    ArcSlabThms.total ArcSlabThms.added outs = (ArcSlabThms.total ArcSlabThms.gone outs + ArcSlabProofsStep.live yf)%N /\
+    (ArcSlab.y_hs yf = [] -> ArcSlabThms.total ArcSlabThms.added outs = ArcSlabThms.total ArcSlabThms.gone outs).
+Proof. exact ArcSlabThms.run_init_conservation. Qed.
+Print Assumptions C05_arcslab_conservation.
+
+(* (c) no leak: without handles no item is left and every slot of every page is on the free list *)
+Theorem C05_arcslab_no_leak : forall spp, (1 <= spp)%nat -> forall y sl,
+  ArcSlabThms.reachable spp y -> ArcSlab.y_slab y = ArcSlab.Alive sl -> ArcSlab.y_hs y = [] ->
+  ArcSlab.sl_items sl = 0%N /\
+  exists ch, NoDup ch /\ hd_error ch = Some (ArcSlab.pl_free (ArcSlab.sl_pl sl)) /\
+             ArcSlabProofsBase.linked (ArcSlab.pl_pages (ArcSlab.sl_pl sl)) ch /\
+             forall a, ArcSlabProofsBase.valid spp (ArcSlab.pl_pages (ArcSlab.sl_pl sl)) a <-> In a ch.
+Proof. exact ArcSlabReach.r_no_handles_all_free. Qed.
+Print Assumptions C05_arcslab_no_leak.
+
+Theorem C05_arcslab_destroyed_leak_free : forall spp, (1 <= spp)%nat -> forall y n,
+  ArcSlabThms.reachable spp y -> ArcSlab.y_slab y = ArcSlab.Destroyed n -> ArcSlab.y_hs y = [] -> n = 0%N.
+Proof. exact ArcSlabReach.r_destroyed_leak_free. Qed.
+Print Assumptions C05_arcslab_destroyed_leak_free.
+
+(* the slab is alive exactly as long as ArcSlabRefs + raw references + ExtHandles is not 0: not
+   destroyed before, not kept after *)
+Theorem C05_arcslab_alive_iff_count : forall spp, (1 <= spp)%nat -> forall y,
+  ArcSlabThms.reachable spp y ->
+  (ArcSlab.obs_alive y = true <-> (1 <= ArcSlabProofsStep.slab_count y)%N) /\
+  (ArcSlab.obs_alive y = false <-> ArcSlabProofsStep.slab_count y = 0%N).
+Proof. exact ArcSlabReach.r_alive_iff_count. Qed.
+Print Assumptions C05_arcslab_alive_iff_count.
+
+Theorem C05_arcslab_slab_count_def : forall y,
+  ArcSlabProofsStep.slab_count y =
+  (ArcSlab.y_refs y + ArcSlab.y_tok y + N.of_nat (ArcSlabProofs.ecount (ArcSlab.y_hs y)))%N /\
+  ArcSlabProofsStep.live y = match ArcSlab.y_slab y with ArcSlab.Alive sl => ArcSlab.sl_items sl | ArcSlab.Destroyed n => n end.
+Proof. intros. split; reflexivity. Qed.
+Print Assumptions C05_arcslab_slab_count_def.
+
+(* re-use order: LIFO - the slot whose item has just left is handed out next *)
+Theorem C05_arcslab_lifo : forall spp, (1 <= spp)%nat -> forall y sl o h hd y' out h2 p2,
+  ArcSlabThms.reachable spp y -> ArcSlab.y_slab y = ArcSlab.Alive sl -> ArcSlabProofsStep.is_end o h ->
+  ArcSlab.hfind h (ArcSlab.y_hs y) = Some hd -> ArcSlabProofs.hcount (ArcSlab.h_addr hd) (ArcSlab.y_hs y) = 1%nat ->
+  ArcSlab.step spp y o = ArcSlab.Done y' out -> ArcSlab.obs_alive y' = true -> ArcSlab.hfind h2 (ArcSlab.y_hs y') = None ->
+  exists y'', ArcSlab.step spp y' (ArcSlab.OAdd h2 p2) = ArcSlab.Done y'' (ArcSlab.mkOut (ArcSlab.RAddr (ArcSlab.h_addr hd)) []).
+Proof. exact ArcSlabReach.r_lifo_reuse. Qed.
+Print Assumptions C05_arcslab_lifo.
+
+(* the address policy in full: the slab is represented by (stack of recycled slots, number k of used
+   slots of the newest page); a new slab is ([], 0); add_item takes the top of the stack, else slot k of
+   the newest page, and adds a page exactly when that was the last free slot; free_slot pushes *)
+Theorem C05_arcslab_policy_rep : forall spp, (1 <= spp)%nat -> forall y sl,
+  ArcSlabThms.reachable spp y -> ArcSlab.y_slab y = ArcSlab.Alive sl -> exists stack k, ArcSlabProofsBase.SRep spp sl stack k.
+Proof. exact ArcSlabReach.r_rep. Qed.
+Print Assumptions C05_arcslab_policy_rep.
+
+Theorem C05_arcslab_policy_new : forall spp, (1 <= spp)%nat ->
+  ArcSlabProofsBase.SRep spp (ArcSlab.slab_new spp) [] 0.
+Proof. exact ArcSlabProofs.slab_new_rep. Qed.
+Print Assumptions C05_arcslab_policy_new.
+
+Theorem C05_arcslab_policy_add : forall spp, (1 <= spp)%nat -> forall sl stack k p,
+  ArcSlabProofsBase.SRep spp sl stack k ->
+  exists sl',
+    ArcSlab.add_item spp sl p = Some (ArcSlabProofsBase.pop_addr (ArcSlab.pl_pages (ArcSlab.sl_pl sl)) stack k, sl') /\
+    ArcSlabProofsBase.SRep spp sl' (ArcSlabProofs.add_stack spp stack k) (ArcSlabProofs.add_k spp stack k) /\
+    ArcSlabProofsBase.pop_addr (ArcSlab.pl_pages (ArcSlab.sl_pl sl)) stack k = ArcSlab.pl_free (ArcSlab.sl_pl sl) /\
+    length (ArcSlab.pl_pages (ArcSlab.sl_pl sl')) =
+      (if ArcSlabProofs.add_new_page spp stack k then S (length (ArcSlab.pl_pages (ArcSlab.sl_pl sl)))
+       else length (ArcSlab.pl_pages (ArcSlab.sl_pl sl))) /\
+    ArcSlab.slot_read sl (ArcSlab.pl_free (ArcSlab.sl_pl sl)) = None /\
+    (forall b, ArcSlab.slot_read sl' b = if ArcSlab.addr_eqb (ArcSlab.pl_free (ArcSlab.sl_pl sl)) b then Some (p, 1%N) else ArcSlab.slot_read sl b) /\
+    ArcSlab.sl_rc sl' = ArcSlab.sl_rc sl /\ ArcSlab.sl_items sl' = (ArcSlab.sl_items sl + 1)%N.
+Proof. exact ArcSlabProofs.add_item_rep. Qed.
+Print Assumptions C05_arcslab_policy_add.
+
+Theorem C05_arcslab_policy_defs : forall spp pgs stack k,
+  ArcSlabProofsBase.pop_addr pgs stack k = match stack with s :: _ => s | [] => (length pgs - 1, k)%nat end /\
+  ArcSlabProofsBase.pop_k stack k = match stack with _ :: _ => k | [] => S k end /\
+  ArcSlabProofs.add_new_page spp stack k =
+    match tl stack with [] => (spp <=? ArcSlabProofsBase.pop_k stack k)%nat | _ :: _ => false end /\
+  ArcSlabProofs.add_stack spp stack k = (if ArcSlabProofs.add_new_page spp stack k then [] else tl stack) /\
+  ArcSlabProofs.add_k spp stack k = (if ArcSlabProofs.add_new_page spp stack k then 0%nat else ArcSlabProofsBase.pop_k stack k).
+Proof. intros. repeat split; reflexivity. Qed.
+Print Assumptions C05_arcslab_policy_defs.
+
+Theorem C05_arcslab_policy_free : forall spp, (1 <= spp)%nat -> forall sl stack k a p rc,
+  ArcSlabProofsBase.SRep spp sl stack k -> ArcSlab.slot_read sl a = Some (p, rc) ->
+  ArcSlabProofsBase.SRep spp (ArcSlab.free_slot sl a) (a :: stack) k /\
+  (forall b, ArcSlab.slot_read (ArcSlab.free_slot sl a) b = if ArcSlab.addr_eqb a b then None else ArcSlab.slot_read sl b) /\
+  ArcSlab.pl_free (ArcSlab.sl_pl (ArcSlab.free_slot sl a)) = a /\
+  ArcSlab.sl_items (ArcSlab.free_slot sl a) = (ArcSlab.sl_items sl - 1)%N /\ (1 <= ArcSlab.sl_items sl)%N.
+Proof. exact ArcSlabProofs.free_slot_rep. Qed.
+Print Assumptions C05_arcslab_policy_free.
+
+(* non-vacuity: a script over pages of 3 slots (second page, LIFO re-use, an ExtHandle that keeps the slab
+   alive, destruction with two IntHandles left: 2 items leaked), its intermediate state, pages of 1 slot *)
+Theorem C05_arcslab_example :
+  (exists yf outs, ArcSlab.run 3 (ArcSlab.init 3) ArcSlabExamples.ex_ops = Some (yf, outs) /\
+     map ArcSlabExamples.view outs = ArcSlabExamples.ex_results /\
+     ArcSlab.y_slab yf = ArcSlab.Destroyed 2 /\ map fst (ArcSlab.y_hs yf) = [5; 3]%nat /\
+     ArcSlab.y_refs yf = 0%N /\ ArcSlab.y_tok yf = 0%N) /\
+  (exists y sl outs, ArcSlab.run 3 (ArcSlab.init 3) ArcSlabExamples.ex_mid_ops = Some (y, outs) /\
+     ArcSlab.y_slab y = ArcSlab.Alive sl /\ ArcSlabThms.reachable 3 y /\
+     ArcSlab.sl_items sl = 3%N /\ length (ArcSlab.pl_pages (ArcSlab.sl_pl sl)) = 2%nat /\
+     ArcSlab.pl_free (ArcSlab.sl_pl sl) = (0, 2)%nat /\
+     ArcSlab.get_at (ArcSlab.pl_pages (ArcSlab.sl_pl sl)) (0, 2)%nat = Some (ArcSlab.Free (Some (1, 1)%nat)) /\
+     ArcSlab.get_at (ArcSlab.pl_pages (ArcSlab.sl_pl sl)) (1, 1)%nat = Some (ArcSlab.Free (Some (1, 2)%nat)) /\
+     ArcSlab.get_at (ArcSlab.pl_pages (ArcSlab.sl_pl sl)) (1, 2)%nat = Some (ArcSlab.Free None) /\
+     ArcSlab.slot_read sl (0, 0)%nat = Some (6, 1)%N /\ ArcSlab.slot_read sl (0, 1)%nat = Some (2, 1)%N /\
+     ArcSlab.slot_read sl (1, 0)%nat = Some (4, 1)%N /\ ArcSlabProofsStep.slab_count y = 1%N) /\
+  (exists y outs, ArcSlab.run 1 (ArcSlab.init 1) [ArcSlab.OAdd 0 7; ArcSlab.OAdd 1 8; ArcSlab.ODrop 0; ArcSlab.OAdd 2 9] = Some (y, outs) /\
+     map ArcSlabExamples.view outs =
+       [Some (ArcSlab.RAddr (0, 0)%nat, []); Some (ArcSlab.RAddr (1, 0)%nat, []); Some (ArcSlab.RUnit, [ArcSlab.EvDrop 7]);
+        Some (ArcSlab.RAddr (0, 0)%nat, [])] /\
+     ArcSlab.obs_pages y = 3%nat /\ ArcSlab.obs_items y = Some 2%N).
+Proof. exact (conj ArcSlabExamples.ex_run (conj ArcSlabExamples.ex_mid ArcSlabExamples.ex_one_slot)). Qed.
+Print Assumptions C05_arcslab_example.
